@@ -48,6 +48,30 @@ Definition format_f6 (x : float) : bytes :=
       ((if s then [45] else []) ++ Z_to_dec (v / 1000000) ++ [46] ++ pad6 (Z_to_dec (v mod 1000000)) 6)%N
   end.
 
+(* |x| rounded half-even to an integer, for finite x = m * 2^e; Go's "%.0f" *)
+Definition scaled0 (m : positive) (e : Z) : Z :=
+  if (0 <=? e)%Z then (Zpos m * 2 ^ e)%Z
+  else
+    let d := (2 ^ (- e))%Z in
+    let q := (Zpos m / d)%Z in
+    let r := (Zpos m mod d)%Z in
+    if (2 * r <? d)%Z then q
+    else if (d <? 2 * r)%Z then (q + 1)%Z
+    else if Z.even q then q else (q + 1)%Z.
+
+Definition format_f0 (x : float) : bytes :=
+  match Prim2SF x with
+  | S754_nan => [78; 97; 78]%N
+  | S754_infinity s => (if s then [45; 73; 110; 102] else [43; 73; 110; 102])%N
+  | S754_zero s => ((if s then [45] else []) ++ [48])%N
+  | S754_finite s m e => ((if s then [45] else []) ++ Z_to_dec (scaled0 m e))%N
+  end.
+
+Example fmt0_1 : format_f0 (float_of_bits 4612811918334230528) = [50]%N.  (* 2.5 -> "2" *)
+Proof. vm_compute. reflexivity. Qed.
+Example fmt0_2 : format_f0 (float_of_bits 4615063718147915776) = [52]%N.  (* 3.5 -> "4" *)
+Proof. vm_compute. reflexivity. Qed.
+
 Definition float_of_N (n : N) : float := of_uint63 (Uint63.of_Z (Z.of_N n)).
 
 Example fmt1 : format_f6 (float_of_bits 4609434218613702656) = [49;46;53;48;48;48;48;48]%N.  (* 1.5 *)
